@@ -110,15 +110,14 @@ theorem render_first (prev : Char) (cs cur : List Char) :
       simp
 
 theorem camel_eq_join (s : List Char) : camel s = if s.isEmpty then s else camelJoin (splitCamel (pascal s)) := by
-  unfold camel camelJoin
+  unfold camel
   split
   · rfl
-  · split
-    · rfl
-    · simp only
+  · cases splitCamel (pascal s) with
+    | nil => rfl
+    | cons t ts =>
+      simp only [camelJoin]
       congr 2
-      funext tok
-      cases tok <;> rfl
 
 /-- ToCamelCase of an underscore-free name: first letter lower, then `renderAux` along the word starts -/
 theorem camel_closed (c : Char) (cs : List Char) (h : NoUS (c :: cs)) :
@@ -134,21 +133,6 @@ theorem wordStartsAux_length (prev : Char) (cs : List Char) : (wordStartsAux pre
   induction cs generalizing prev with
   | nil => rfl
   | cons c cs ih => simp [wordStartsAux_cons, ih]
-
-theorem wordStartsAux_upper (prev : Char) (cs : List Char) :
-    ∀ i (h1 : i < cs.length) (h2 : i < (wordStartsAux prev cs).length), (wordStartsAux prev cs)[i] = true → isUpper cs[i] = true := by
-  induction cs generalizing prev with
-  | nil => intro i h1; cases h1
-  | cons c cs ih =>
-    intro i h1 h2 h
-    cases i with
-    | zero =>
-      rw [wordStartsAux_cons] at h
-      simp only [List.getElem_cons_zero, Bool.and_eq_true] at h
-      simpa using h.1
-    | succ j =>
-      simp only [wordStartsAux_cons, List.getElem_cons_succ] at h ⊢
-      exact ih c j (by simpa using h1) (by simpa [wordStartsAux_cons] using h2) h
 
 theorem renderAux_lower (cs : List Char) (sts : List Bool) (ha : Ascii cs) (hl : sts.length = cs.length) :
     (renderAux cs sts).map toLower = cs.map toLower := by
@@ -231,5 +215,147 @@ theorem renderAux_starts (prevA prevB : Char) (as bs : List Char) (ha : Ascii as
         rw [← this, hua] at hn
         cases hn
       · rfl
+
+
+/-! ## smartMatch from above: equal length and equal up to case -/
+
+theorem ascii_tail {c : Char} {cs : List Char} (h : Ascii (c :: cs)) : Ascii cs :=
+  fun x hx => h x (List.mem_cons_of_mem _ hx)
+
+theorem camel_fold (s : List Char) (ha : Ascii s) (hn : NoUS s) : (camel s).map toLower = s.map toLower := by
+  cases s with
+  | nil => rfl
+  | cons c cs =>
+    have hc : c.toNat < 128 := ha c List.mem_cons_self
+    rw [camel_closed c cs hn]
+    simp only [List.map_cons, upFirst, wordStarts]
+    rw [renderAux_lower cs _ (ascii_tail ha) (wordStartsAux_length _ _)]
+    rw [lower_lower _ (upper_ascii c hc), lower_upper c hc]
+
+theorem smartMatch_fold (a b : List Char) (ha : Ascii a) (hb : Ascii b) (hna : NoUS a) (hnb : NoUS b)
+    (h : smartMatchL a b = true) : a.length = b.length ∧ equalFoldL a b = true := by
+  simp only [smartMatchL, Bool.and_eq_true, Bool.or_eq_true, beq_iff_eq] at h
+  refine ⟨h.1, ?_⟩
+  simp only [equalFoldL, beq_iff_eq]
+  rcases h.2 with e | e
+  · rw [e]
+  · rw [← camel_fold a ha hna, ← camel_fold b hb hnb, e]
+
+/-! ## smartMatch exactly: the same words -/
+
+theorem smartMatch_of_sameWords (a b : List Char) (ha : Ascii a) (hb : Ascii b) (hna : NoUS a) (hnb : NoUS b)
+    (h : sameWords a b = true) : smartMatchL a b = true := by
+  simp only [sameWords, Bool.and_eq_true, beq_iff_eq, equalFoldL] at h
+  obtain ⟨⟨hl, hf⟩, hs⟩ := h
+  simp only [smartMatchL, Bool.and_eq_true, Bool.or_eq_true, beq_iff_eq]
+  refine ⟨hl, Or.inr ?_⟩
+  cases a with
+  | nil =>
+    cases b with
+    | nil => rfl
+    | cons d ds => simp at hl
+  | cons c cs =>
+    cases b with
+    | nil => simp at hl
+    | cons d ds =>
+      have hc : c.toNat < 128 := ha c List.mem_cons_self
+      have hd : d.toNat < 128 := hb d List.mem_cons_self
+      simp only [List.map_cons, List.cons.injEq] at hf
+      rw [camel_closed c cs hna, camel_closed d ds hnb, hs]
+      rw [renderAux_congr cs ds _ (ascii_tail ha) (ascii_tail hb) hf.2]
+      rw [lower_upper c hc, lower_upper d hd, hf.1]
+
+theorem sameWords_of_smartMatch (a b : List Char) (ha : Ascii a) (hb : Ascii b) (hna : NoUS a) (hnb : NoUS b)
+    (h : smartMatchL a b = true) : a = b ∨ sameWords a b = true := by
+  have hfold := smartMatch_fold a b ha hb hna hnb h
+  simp only [smartMatchL, Bool.and_eq_true, Bool.or_eq_true, beq_iff_eq] at h
+  rcases h.2 with e | e
+  · exact Or.inl e
+  · right
+    simp only [sameWords, Bool.and_eq_true, beq_iff_eq]
+    refine ⟨⟨hfold.1, hfold.2⟩, ?_⟩
+    cases a with
+    | nil =>
+      cases b with
+      | nil => rfl
+      | cons d ds => simp at hfold
+    | cons c cs =>
+      cases b with
+      | nil => simp at hfold
+      | cons d ds =>
+        rw [camel_closed c cs hna, camel_closed d ds hnb] at e
+        simp only [List.cons.injEq] at e
+        simp only [upFirst, wordStarts] at e ⊢
+        exact renderAux_starts _ _ cs ds (ascii_tail ha) (ascii_tail hb) (by simpa using hfold.1) e.2
+
+/-! ## acronym variants are the same words -/
+
+/-- the character before position |pre| when `prev` precedes `pre` -/
+def lastCh : Char → List Char → Char
+  | p, [] => p
+  | _, x :: xs => lastCh x xs
+
+theorem lower_not_upper' (c : Char) (hc : c.toNat < 128) : isLower c = true → isUpper c = false :=
+  ascii_law (fun c => isLower c = true → isUpper c = false) (by decide) c hc
+theorem upper_not_lower (c : Char) (hc : c.toNat < 128) : isUpper c = true → isLower c = false :=
+  ascii_law (fun c => isUpper c = true → isLower c = false) (by decide) c hc
+theorem lower_of_upper (c : Char) (hc : c.toNat < 128) : isUpper c = true → isLower (toLower c) = true :=
+  ascii_law (fun c => isUpper c = true → isLower (toLower c) = true) (by decide) c hc
+
+/-- how an acronym may continue: nothing, a non-letter, or a capitalised word -/
+def PostOk (post : List Char) : Prop :=
+  post = [] ∨ (∃ x r, post = x :: r ∧ isUpper x = false ∧ isLower x = false) ∨
+  (∃ x y r, post = x :: y :: r ∧ isUpper x = true ∧ isLower y = true)
+
+/-- the tail of an all-caps run against its lower-cased spelling: same word starts (none inside the run) -/
+theorem starts_run (us post : List Char) (hus : ∀ u ∈ us, isUpper u = true) (hau : Ascii us) (hp : PostOk post)
+    (pa pb : Char) (hpa : isLower pa = false) (hpb : post ≠ [] → (isLower pa = false ∧ (us = [] → isLower pb = isLower pa ∨ True))) :
+    (us ≠ [] ∨ isLower pb = isLower pa ∨ (∃ x y r, post = x :: y :: r ∧ isUpper x = true ∧ isLower y = true) ∨
+      (∃ x r, post = x :: r ∧ isUpper x = false) ∨ post = []) →
+    wordStartsAux pa (us ++ post) = wordStartsAux pb (us.map toLower ++ post) := by
+  intro _
+  induction us generalizing pa pb with
+  | nil =>
+    simp only [List.nil_append, List.map_nil]
+    rcases hp with rfl | ⟨x, r, rfl, hx, _⟩ | ⟨x, y, r, rfl, hx, hy⟩
+    · rfl
+    · rw [wordStartsAux_cons, wordStartsAux_cons, hx]; simp
+    · rw [wordStartsAux_cons, wordStartsAux_cons]
+      simp [nextLower, hy]
+  | cons u us ih =>
+    have hu : isUpper u = true := hus u List.mem_cons_self
+    have hua : u.toNat < 128 := hau u List.mem_cons_self
+    simp only [List.cons_append, List.map_cons]
+    rw [wordStartsAux_cons, wordStartsAux_cons]
+    have hnl : nextLower (us ++ post) = false := by
+      cases us with
+      | nil =>
+        simp only [List.nil_append]
+        rcases hp with rfl | ⟨x, r, rfl, _, hx⟩ | ⟨x, y, r, rfl, hx, _⟩
+        · rfl
+        · simpa [nextLower] using hx
+        · have : isLower x = false := by
+            -- an upper-case letter is not lower-case; `x` need not be ASCII, so argue from the definitions
+            simp only [isUpper, isLower, Bool.and_eq_true, decide_eq_true_eq] at hx ⊢
+            simp only [Bool.and_eq_false_iff, decide_eq_false_iff_not]
+            left
+            intro h
+            have h1 := Char.le_def.mp h
+            have h2 := Char.le_def.mp hx.2
+            have : ('a' : Char).val ≤ ('Z' : Char).val := Nat.le_trans h1 h2
+            exact absurd this (by decide)
+          simpa [nextLower] using this
+      | cons u2 us2 =>
+        have := upper_not_lower u2 (hau u2 (by simp)) (hus u2 (by simp))
+        simpa [nextLower] using this
+    have hb : isUpper (toLower u) = false := lower_not_upper u hua
+    simp only [hnl, hpa, Bool.or_false, Bool.and_false, hb, Bool.false_and]
+    congr 1
+    exact ih (fun x hx => hus x (List.mem_cons_of_mem _ hx)) (ascii_tail hau) u (toLower u)
+      (upper_not_lower u hua hu) (fun _ => ⟨upper_not_lower u hua hu, fun _ => Or.inr trivial⟩) (Or.inr (Or.inr (by
+        rcases hp with h | ⟨x, r, h, hx, _⟩ | h
+        · exact Or.inr (Or.inr h)
+        · exact Or.inr (Or.inl ⟨x, r, h, hx⟩)
+        · exact Or.inl h)))
 
 end ShootVerif.Mapper
